@@ -193,6 +193,13 @@ def rows_position_sorted(rows):
     return True
 
 
+def rows_start_sorted(rows):
+    """the plain reading of "position-sorted": gene-type rows, in file order, have non-decreasing starts (two genes that
+    START AT THE SAME POSITION, each followed by its own children, are still in position order)"""
+    starts = [min(p[0] for p in r["parts"]) for r in rows if r["type"] in GENE_TYPES]
+    return all(a <= b for a, b in zip(starts, starts[1:]))
+
+
 def gene_tags_unique(rows):
     """every `gene` row carries a locus tag and no tag is used by two `gene` rows"""
     tags = [_tag(r) for r in rows if r["type"] == "gene"]
